@@ -68,7 +68,15 @@ def gen(rng, tier):
                    ([[1, 2, 3], [4, 5, 6]], [[1, 2, 4], [4, 5, 7]], {}), ({"k": {"a": 1, "b": "yyyy"}}, {"k": {"c": "yyyy", "d": "yyzz"}}, {}),
                    ({"k": {"a": 1, "b": "yyyy"}}, {"k": {"c": "yyyy", "d": "yyzz"}}, {"auto_match_keys": False}),
                    ([{"a": [1, 2]}, "x"], [{"a": [2, 1, 3]}, "y"], {}), ({"a": {"b": {"c": "hello"}}}, {"a": {"b": {"d": "help"}}}, {})]
+    nested_docs += [({"k": {"a": "yyyy", "z": 1}}, {"k": {"b": "yyzz", "z": 1}}, {}), ({"k": {"a": "yyyy", "z": 1}}, {"k": {"b": "yyzz", "z": 1}}, {"auto_match_keys": False}),
+                    ({"outer": {"name": "bob", "n": 1}, "m": 2}, {"outer": {"nome": "rob", "n": 1}, "m": 2}, {})]
     sub_ops = ["tighten", "tighten", "bounds", "complete", "edits", "nonzero"]
+    # list down to an inner edit, look at the root, refine the inner edit directly, look at the root again
+    for f, t, o in nested_docs:
+        for path in ("0", "0.1", "1", "1.1", "0.0", "0.1.0", "0.1.0.1"):
+            up = [f"sub:{p_}:edits" for p_ in (path.split(".")[0], path)]
+            for mid in (["bounds"], ["complete"], ["bounds", "complete"]):
+                cases.append({"f": f, "t": t, "opts": o, "ops": up + mid + [f"sub:{path}:tighten"] * 6 + ["bounds"], "color": False})
     for k in range(160 if tier == "quick" else 4000):
         if k % 3:
             f, t, o = nested_docs[k % len(nested_docs)]
